@@ -146,6 +146,7 @@ func inLoopBlock(fn *ssa.Function, b *ssa.BasicBlock) bool { return inLoop(fn, b
 func checkC01(c *Ctx) {
 	c.rulePartSearch("J5.parts")
 	c.R.Floor("J5.parts", 1)
+	c.rulePartOffset("J7.partoff")
 	fn := c.Fn("J1.layout", "authenticode.Parse")
 	if fn == nil {
 		return
@@ -236,6 +237,7 @@ func checkC01(c *Ctx) {
 		c.R.Floor("J2.order", 3)
 		c.R.Floor("J3.tail", 1)
 	}
+	c.rulePadFresh("J6.padzero")
 	// parsing keeps nothing in package-level memory between calls
 	c.rulePureAs("E.state", []string{"authenticode.Parse"})
 	c.R.Floor("E.state", 1)
@@ -541,6 +543,33 @@ func (c *Ctx) sectionOrder(dv *deepView, fn *ssa.Function, parts []listItem) {
 		c.R.Infof("J2.order", fname, "skip-empty", c.IPos(secPart), "not decided for this shape: the section part is guarded by a predicate over SizeOfRawData that is not a direct comparison with zero")
 	} else {
 		c.R.Check(okZ, "J2.order", fname, "skip-empty", c.IPos(secPart), "sections without raw data are skipped", detZ)
+	}
+	// nothing but an empty section is left out: any other condition on the section's
+	// header inside the loop removes bytes the specification says are hashed
+	var secLoop *natLoop
+	for _, l := range naturalLoops(lf) {
+		if l.body[at.Index] && (secLoop == nil || len(l.body) < len(secLoop.body)) {
+			secLoop = l
+		}
+	}
+	if secLoop != nil {
+		extra := ""
+		for _, ce := range ir.DominatingConds(lf, at) {
+			if !secLoop.body[ce.Edge.From] {
+				continue
+			}
+			for v := range dv.sliceDeep(ce.Cond, sfr) {
+				id := ir.FieldID(v)
+				if ld, isLd := v.(*ssa.UnOp); isLd && ld.Op == token.MUL {
+					id = ir.FieldID(ld.X)
+				}
+				if strings.HasPrefix(id, "debug/pe.SectionHeader.") && id != "debug/pe.SectionHeader.Size" {
+					extra = strings.TrimPrefix(id, "debug/pe.") + " (condition at " + c.IPos(ce.If) + ")"
+				}
+			}
+		}
+		c.R.Check(extra == "", "J2.order", fname, "only-empty-skipped", c.IPos(secPart), "every section with raw data is hashed: only SizeOfRawData == 0 leaves a section out",
+			"whether a section is hashed also depends on "+extra+": the raw data of such a section is in the file but not in the digest")
 	}
 	// the part reads the section's raw data with its SizeOfRawData
 	owner := fname
@@ -1056,4 +1085,87 @@ func (c *Ctx) rulePartSearch(rule string) {
 	default:
 		c.R.Infof(rule, name(fn), "part-search", c.IPos(search), "not decided for this shape: "+id)
 	}
+}
+
+// rulePartOffset (J7.partoff): a part of the concatenating reader is read at an
+// offset relative to the part. The offset of the whole stream, handed to a
+// part unchanged, addresses the right bytes only in the first part.
+func (c *Ctx) rulePartOffset(rule string) {
+	fn := c.Fn(rule, "authenticode.(*multi).ReadAt")
+	if fn == nil {
+		return
+	}
+	offP := paramByType(fn, "int64")
+	n := 0
+	bad := ""
+	for _, f := range withAnon(fn) {
+		instrsOf(f, func(i ssa.Instruction) {
+			call, ok := i.(ssa.CallInstruction)
+			if !ok {
+				return
+			}
+			cc := call.Common()
+			var args []ssa.Value
+			switch {
+			case cc.IsInvoke() && cc.Method.Name() == "ReadAt":
+				args = cc.Args
+			case !cc.IsInvoke() && strings.HasSuffix(ir.CallID(call), ".ReadAt") && ir.Callee(call) != fn:
+				args = cc.Args[1:]
+			default:
+				return
+			}
+			if len(args) != 2 {
+				return
+			}
+			n++
+			offArg := ir.StripConv(args[1])
+			// the parameter spilled to a cell because a function literal captures it
+			if ld, isLd := offArg.(*ssa.UnOp); isLd && ld.Op == token.MUL {
+				if cell, isA := ld.X.(*ssa.Alloc); isA {
+					var stored []ssa.Value
+					for _, r := range *cell.Referrers() {
+						if st, ok := r.(*ssa.Store); ok && st.Addr == ssa.Value(cell) {
+							stored = append(stored, st.Val)
+						}
+					}
+					if len(stored) == 1 {
+						offArg = ir.StripConv(stored[0])
+					}
+				}
+			}
+			if offP != nil && offArg == ssa.Value(offP) {
+				// allowed only where the part is known to start at 0
+				zeroStart := false
+				for _, ce := range ir.DominatingConds(f, call.Block()) {
+					bo, isB := ce.Cond.(*ssa.BinOp)
+					if !isB || !(bo.Op == token.EQL && ce.Truth || bo.Op == token.NEQ && !ce.Truth) {
+						continue
+					}
+					x, y := ir.StripConv(bo.X), ir.StripConv(bo.Y)
+					if k, isK := ir.ConstInt(x); isK && k == 0 {
+						x, y = y, x
+					}
+					if k, isK := ir.ConstInt(y); !isK || k != 0 {
+						continue
+					}
+					id := ir.FieldID(x)
+					if ld, isLd := x.(*ssa.UnOp); isLd && ld.Op == token.MUL {
+						id = ir.FieldID(ld.X)
+					}
+					if id == M+"/authenticode.offsetAndSource.off" {
+						zeroStart = true
+					}
+				}
+				if !zeroStart {
+					bad = c.IPos(i)
+				}
+			}
+		})
+	}
+	if n == 0 {
+		c.R.Infof(rule, name(fn), "part-relative", c.Pos(fn.Pos()), "not decided for this shape: no ReadAt on a part found in the concatenating reader")
+		return
+	}
+	c.R.Check(bad == "", rule, name(fn), "part-relative", c.Pos(fn.Pos()), "parts are read at offsets relative to the part",
+		"the part read at "+bad+" is given the offset of the whole stream unchanged: for every part but the first this addresses other bytes of the part (or none)")
 }
